@@ -73,6 +73,7 @@ var fragments = []string{
 	" catch ", " end ", " else ", " try ", " block ", " yield ", " content ", " range ", " if ", " include ", " extends ", " import ", " return ",
 	"|", "(", ")", "[", "]", ":", ":=", "=", ",", ";", ".", "..", ".x", "$", "#", "@", "!", "?", "&", "&&", "||", "<", ">", "<=", "==",
 	"\xff", "\xc3", "\xe2\x82", "0x", "1e", "1e+", "089", "0x1g", "'a", "'\\", "\"\\", "nil", "true", "_.", "._", "x._", "\n", "\r\n", "\t", " - ", "- ", " -",
+	"-٣", "+३", "１", "٣", "-１", " -٣ ", "x٣", "Ω", "ß", "_Ω", "-Ω", "+é", ".٣", "٣.٣", "1٣", "'٣'",
 	"catch |", "catch 1", "catch (", "yield (", "block (", "block b(", "yield b(,)", "range ,", "if ;", ":= ", "x := ", "a, b := ", "a[", "a[:", "a[1:", "f(_", "f(_,_)", "| _", "include", "return",
 }
 
